@@ -18,6 +18,7 @@ type WitnessEntry struct {
 	Obligation string `json:"obligation"`
 	File       string `json:"file"`
 	PkgDir     string `json:"pkgdir"`
+	Prefixes   []string `json:"prefixes,omitempty"` // generic scenario: any obligation whose name starts with one of these
 	Probe      string `json:"probe,omitempty"` // property id: run on every check of that property (bounded test of an assumed clause)
 	Assumes    string `json:"assumes,omitempty"`
 }
@@ -57,10 +58,24 @@ func (e *Engine) runWitness(cfg RunConfig, name string) (found bool, violated bo
 	if !loadJSON("/verif/witness/index.json", &idx) {
 		return false, false, nil
 	}
+	// exact entries first, then generic scenarios registered by name prefix
+	var cands []WitnessEntry
 	for _, w := range idx {
-		if w.Obligation != name {
-			continue
+		if w.Obligation == name {
+			cands = append(cands, w)
 		}
+	}
+	if len(cands) == 0 {
+		for _, w := range idx {
+			for _, p := range w.Prefixes {
+				if strings.HasPrefix(name, p) {
+					cands = append(cands, w)
+					break
+				}
+			}
+		}
+	}
+	for _, w := range cands {
 		src := filepath.Join("/verif/witness", w.File)
 		dir := filepath.Join(cfg.Work, "replay")
 		os.MkdirAll(dir, 0o755)
